@@ -116,6 +116,15 @@ def run(tier, seed):
             f = {"base": {"l": "REFLECT", "n": n}, "layer": "frame", "fault": {"op": "none"}, "kind": "REFLECT"}
             plans.append(("Active", [f]))
             plans.append((states[n % 6], [f]))
+        # trains: several well-formed share control PDUs in one MCS user data, in every state (C12 validates their effect in
+        # the active state; here: whatever stands in a train, in whatever state, the client survives it)
+        tl = [{"kind": "Sync"}, {"kind": "Control", "action": 4}, {"kind": "Control", "action": 2}, {"kind": "FontMap"}, {"kind": "ErrInfo"}, {"kind": "UnknownData", "t2": 38},
+              {"kind": "UnknownData", "t2": 2}, {"kind": "SlowBitmap"}, {"kind": "UnknownControl", "ptype": 26}, {"kind": "DeactivateAll"}, {"kind": "DemandActive", "shareId": [7, 7, 7, 7]}]
+        trains = [[a, b] for a in tl for b in tl] + [[dict(rng.choice(tl)) for _ in range(rng.randint(3, 5))] for _ in range(40 if tier == "quick" else 2000)]
+        for n, items in enumerate(trains):
+            f = {"base": {"train": items}, "layer": "frame", "fault": {"op": "none"}, "kind": "TRAIN"}
+            plans.append(("Active", [f]))
+            plans.append((states[n % 6], [f]))
         # pairs of faults within one message
         for _ in range(3000 if tier == "quick" else 200000):
             a = rng.choice(faults)
